@@ -33,6 +33,7 @@ pub struct GenCfg
     pub copy_rules : bool,      // mostly single-source, single-target rules with empty salt ("cp")
     pub edits_only : bool,      // user operations are source edits/reverts only
     pub fail_rate : u64,        // per-rule chance (out of 24) of a failing construct when `failing`
+    pub soak : bool,            // long soak: one small graph built from dozens of distinct source states, then reverts
     pub moves : bool,           // user `mv` onto a target (keeps the old mtime); only sound to demand
                                 // anything about it when distinct writes carry distinct mtimes
 }
@@ -64,6 +65,7 @@ impl GenCfg
             copy_rules : false,
             edits_only : false,
             fail_rate : 4,
+            soak : false,
             moves : true,
         }
     }
@@ -121,8 +123,9 @@ impl Gen
         let base = format!("{}{}{}", letter, kind, self.next_name);
         if self.with_dir && kind == "t"
         {
-            match self.rng.below(6)
+            match self.rng.below(7)
             {
+                6 => format!("out/deep/er/{}", base),
                 0 | 1 | 3 => format!("out/{}", base),
                 // a sibling of the directory whose name sorts between "out" and "out/" as a plain
                 // string but after it as a path component
@@ -143,11 +146,20 @@ impl Gen
         if self.big_files && self.rng.chance(1, 6)
         {
             // sizes around the 256-byte read buffer of the hashing loop, and beyond
-            let len = *self.rng.pick(&[255usize, 256, 257, 511, 512, 513, 700]);
-            let unit = format!("{}#{}|", path, k);
+            let len = *self.rng.pick(&[255usize, 256, 257, 511, 512, 513, 700, 700, 4095, 4096, 4097, 8193, 65536, 65537, 100_000]);
+            // the versions of one path share a long prefix and differ only at the very end (an edit
+            // near the end of a long file), or — one time in four — from the first byte on
+            let early = self.rng.chance(1, 4);
+            let unit = if early { format!("{}#{}|", path, k) } else { format!("{}|", path) };
             let mut v = Vec::with_capacity(len);
             while v.len() < len { v.extend_from_slice(unit.as_bytes()); }
             v.truncate(len);
+            if !early
+            {
+                let tail = format!("#{}", k);
+                let n = v.len();
+                v[n - tail.len()..].copy_from_slice(tail.as_bytes());
+            }
             return v;
         }
         if self.shared_pool
@@ -203,9 +215,10 @@ impl Gen
     fn make_rule(&mut self, pos : usize) -> SRule
     {
         let copyish = self.cfg.copy_rules && self.rng.chance(4, 5);
-        let n_targets = if copyish { 1 } else { match self.rng.below(10) { 0..=5 => 1, 6..=8 => 2, _ => 3 } };
+        let wide = !copyish && self.rng.chance(1, 40);
+        let n_targets = if copyish { 1 } else if wide { self.rng.range(4, 9) } else { match self.rng.below(10) { 0..=5 => 1, 6..=8 => 2, _ => 3 } };
         let avail = self.available_sources(pos);
-        let n_sources = if copyish { 1 } else { std::cmp::min(avail.len(), self.rng.range(1, 4)) };
+        let n_sources = if copyish { 1 } else { std::cmp::min(avail.len(), if wide { self.rng.range(4, 10) } else { self.rng.range(1, 4) }) };
         let mut sources : Vec<String> = vec![];
         let earlier_targets : Vec<String> = self.rules[..pos].iter().flat_map(|r| r.targets.clone()).collect();
         while sources.len() < n_sources
@@ -702,18 +715,56 @@ impl Gen
 
     fn knobs(&mut self) -> Knobs
     {
-        let read_chunk = *self.rng.pick(&[0usize, 0, 1, 7, 255, 256, 257]);
-        let write_chunk = *self.rng.pick(&[0usize, 0, 0, 0, 7, 16, 64]);
+        // with long files, byte-sized chunks would only burn scheduler steps
+        let read_chunk = if self.big_files { *self.rng.pick(&[0usize, 0, 255, 256, 257, 4096, 65536]) } else { *self.rng.pick(&[0usize, 0, 1, 7, 255, 256, 257]) };
+        let write_chunk = if self.big_files { *self.rng.pick(&[0usize, 0, 0, 4096]) } else { *self.rng.pick(&[0usize, 0, 0, 0, 7, 16, 64]) };
         let clock = match self.cfg.clock
         {
             Some(c) => c,
             None => if self.rng.chance(1, 2) { ClockMode::Distinct } else { ClockMode::Tick },
         };
-        Knobs{ read_chunk, write_chunk, yield_on_read : self.rng.chance(1, 4), clock }
+        Knobs{ read_chunk, write_chunk, yield_on_read : !self.big_files && self.rng.chance(1, 4), clock }
+    }
+
+    /* Long soak: depth of per-rule memory instead of breadth of scenarios.  A small graph is built
+       from K pairwise distinct states of one source (every edit followed by a build), then the source
+       is put back to recent and to old states. */
+    fn soak_case(&mut self) -> Case
+    {
+        self.cfg.max_rules = 2;
+        self.cfg.failing = false;
+        self.build_graph();
+        let rules = self.rules.clone();
+        let mut files : Vec<(String, Vec<u8>)> = self.files.iter().map(|(p, c)| (p.clone(), c.clone())).collect();
+        files.push(("README".to_string(), b"bystander".to_vec()));
+        let leaf = self.leaves[0].clone();
+        let k = *self.rng.pick(&[20usize, 40, 70, 70, 100, 140]);
+        let mut ops = vec![];
+        let state = |i : usize| format!("{}@{}", leaf, i).into_bytes();
+        let serial = || SchedSpec{ strategy : Strategy::Serial, seed : 0 };
+        ops.push(Op::Build{ goal : None, sched : serial() });
+        for i in 0..k
+        {
+            ops.push(Op::Write{ path : leaf.clone(), content : state(i) });
+            ops.push(Op::Build{ goal : None, sched : if i + 3 >= k { self.sched() } else { serial() } });
+        }
+        // back to the state before the last, to the last, to an old one, to the last again
+        for i in [k - 2, k - 1, self.rng.range(0, k - 1), k - 1, k / 2].iter()
+        {
+            ops.push(Op::Write{ path : leaf.clone(), content : state(*i) });
+            ops.push(Op::Build{ goal : None, sched : self.sched() });
+        }
+        let mut dirs = vec![];
+        if self.with_dir { dirs = vec!["out".to_string(), "out/deep".to_string(), "out/deep/er".to_string()]; }
+        Case{ rules : rules, files : files, dirs : dirs, rule_files : 1, ops : ops, knobs : self.knobs() }
     }
 
     pub fn case(&mut self) -> Case
     {
+        if self.cfg.soak
+        {
+            return self.soak_case();
+        }
         self.build_graph();
         let initial_rules = self.rules.clone();
         let initial_files : Vec<(String, Vec<u8>)> = self.files.iter().map(|(p, c)| (p.clone(), c.clone())).collect();
@@ -721,7 +772,11 @@ impl Gen
         // a bystander file ruler must never touch
         files.push(("README".to_string(), b"bystander".to_vec()));
 
-        let n_ops = self.rng.range(self.cfg.min_ops, self.cfg.max_ops);
+        let mut n_ops = self.rng.range(self.cfg.min_ops, self.cfg.max_ops);
+        if self.cfg.max_ops >= 6 && self.rng.chance(1, 60)
+        {
+            n_ops = self.rng.range(self.cfg.max_ops, 3 * self.cfg.max_ops);   // a long history now and then
+        }
         let mut ops = vec![];
         while ops.len() < n_ops
         {
@@ -758,6 +813,8 @@ impl Gen
         if self.with_dir
         {
             dirs.push("out".to_string());
+            dirs.push("out/deep".to_string());
+            dirs.push("out/deep/er".to_string());
         }
         Case
         {
